@@ -153,7 +153,7 @@ func (w *World) buildMsg(name string, a []string, inner []sdk.Msg) sdk.Msg {
 	case "createval":
 		pk := ed25519.GenPrivKeyFromSecret([]byte("newval" + a[0])).PubKey()
 		m, err := stakingtypes.NewMsgCreateValidator(sdk.ValAddress(w.AccAddr(a[0])), pk, sdk.NewCoin("asetl", sdk.DefaultPowerReduction),
-			stakingtypes.Description{Moniker: "x"}, stakingtypes.NewCommissionRates(sdk.ZeroDec(), sdk.OneDec(), sdk.ZeroDec()), sdk.OneInt(), sdk.ZeroInt(), false)
+			stakingtypes.Description{Moniker: "x"}, stakingtypes.NewCommissionRates(sdk.NewDecWithPrec(2, 1), sdk.OneDec(), sdk.NewDecWithPrec(1, 2)), sdk.OneInt(), sdk.ZeroInt(), false)
 		must(err)
 		return m
 	case "delegate":
